@@ -247,56 +247,6 @@ theorem trimSpaceS_window (h : Bytes) (s t : Slice) (hv : s.Valid h)
     subst ht
     refine ⟨⟨?_, ?_⟩, ?_, ?_, ?_, rfl, hne, hview⟩ <;> simp only <;> omega
 
-/-! ### `writeAt`, `appendRef` -/
-
-theorem writeAt_length (h : Bytes) (pos : Nat) (bs : Bytes) (hp : pos + bs.length ≤ h.length) :
-    (writeAt h pos bs).length = h.length := by
-  simp only [writeAt, List.length_append, List.length_take, List.length_drop]
-  omega
-
-theorem writeAt_getElem?_outside (h : Bytes) (pos : Nat) (bs : Bytes)
-    (hp : pos + bs.length ≤ h.length) (i : Nat) (hi : i < pos ∨ pos + bs.length ≤ i) :
-    (writeAt h pos bs)[i]? = h[i]? := by
-  simp only [writeAt, List.getElem?_append, List.length_append, List.length_take,
-    List.getElem?_take, List.getElem?_drop]
-  rw [Nat.min_eq_left (by omega)]
-  rcases hi with hi | hi
-  · simp [hi, show i < pos + bs.length by omega]
-  · rw [if_neg (by omega)]
-    congr 1
-    omega
-
-theorem writeAt_getElem?_inside (h : Bytes) (pos : Nat) (bs : Bytes)
-    (hp : pos + bs.length ≤ h.length) (j : Nat) (hj : j < bs.length) :
-    (writeAt h pos bs)[pos + j]? = bs[j]? := by
-  simp only [writeAt, List.getElem?_append, List.length_append, List.length_take]
-  rw [Nat.min_eq_left (by omega), if_pos (by omega), if_neg (by omega)]
-  congr 1
-  omega
-
-/-- the value `append` returns is the old value followed by the extra bytes, in both cases -/
-theorem appendRef_view (h : Bytes) (r : Ref) (extra : Bytes)
-    (hv : ∀ w, r = .window w → w.Valid h) :
-    (appendRef h r extra).2.view (appendRef h r extra).1 = r.view h ++ extra := by
-  cases r with
-  | nil => rfl
-  | fresh bs => rfl
-  | window w =>
-    obtain ⟨hv1, hv2⟩ := hv w rfl
-    simp only [appendRef]
-    split
-    · next hcap =>
-      simp only [Ref.view, Slice.view, writeAt]
-      have hlen : (h.take (w.off + w.len)).length = w.off + w.len := by
-        rw [List.length_take]; omega
-      rw [List.append_assoc, List.drop_append_of_le_length (by omega), List.drop_take,
-        Nat.add_sub_cancel_left, ← List.append_assoc]
-      have hl2 : ((h.drop w.off).take w.len ++ extra).length = w.len + extra.length := by
-        rw [List.length_append, List.length_take, List.length_drop]; omega
-      rw [← hl2, List.take_left']
-      rfl
-    · rfl
-
 /-! ### the helpers -/
 
 theorem trimSpaceS_ne_fresh (h : Bytes) (s : Slice) (bs : Bytes) : trimSpaceS h s ≠ .fresh bs := by
@@ -322,10 +272,9 @@ theorem prefix_facts (h : Bytes) (t : Slice) (n : Int) (ht : t.Valid h) (hgt : (
     simp only [Slice.prefix]; omega
   · rw [trimSpaceS_view, Slice.view_prefix h t _ hk]
 
-/-- 1a. the pinned byte helper returns the value the string helper computes (read in the heap it
-    leaves behind) -/
+/-- the byte helper returns the text the string helper computes -/
 theorem ellipsisB_view (h : Bytes) (s : Slice) (n : Int) (hv : s.Valid h) :
-    (ellipsisB h s n).2.view (ellipsisB h s n).1 = ellipsis (s.view h) n := by
+    (ellipsisB h s n).2.view h = ellipsis (s.view h) n := by
   cases hts : trimSpaceS h s with
   | fresh bs => exact absurd hts (trimSpaceS_ne_fresh h s bs)
   | nil =>
@@ -340,183 +289,50 @@ theorem ellipsisB_view (h : Bytes) (s : Slice) (n : Int) (hv : s.Valid h) :
     · next hgt =>
       split
       · rfl
-      · obtain ⟨hpv, hpview⟩ := prefix_facts h t n htv hgt
-        rw [appendRef_view, hpview, hview]
-        intro w hw
-        exact (trimSpaceS_window h _ w hpv hw).1
-    · exact hview
-
-/-- 1b. so does the repaired one (it leaves the heap as it was, see `ellipsisBFixed_heap`) -/
-theorem ellipsisBFixed_view (h : Bytes) (s : Slice) (n : Int) (hv : s.Valid h) :
-    (ellipsisBFixed h s n).2.view h = ellipsis (s.view h) n := by
-  cases hts : trimSpaceS h s with
-  | fresh bs => exact absurd hts (trimSpaceS_ne_fresh h s bs)
-  | nil =>
-    have h0 : trimSpace (s.view h) = [] := by rw [← trimSpaceS_view, hts]; rfl
-    rw [ellipsis_of_nil _ _ h0]
-    simp only [ellipsisBFixed, hts]
-    split <;> rfl
-  | window t =>
-    obtain ⟨htv, -, -, -, hlen, -, hview⟩ := trimSpaceS_window h s t hv hts
-    simp only [ellipsisBFixed, hts, ellipsis, ← hlen]
-    split
-    · next hgt =>
-      split
-      · rfl
       · obtain ⟨-, hpview⟩ := prefix_facts h t n htv hgt
         show (trimSpaceS h (t.prefix (n - 3).toNat)).view h ++ dots = _
         rw [hpview, hview]
     · exact hview
 
-/-- 2. the repaired helper never writes to the caller's array -/
-theorem ellipsisBFixed_heap (h : Bytes) (s : Slice) (n : Int) : (ellipsisBFixed h s n).1 = h := by
-  unfold ellipsisBFixed
+/-- the byte helper never writes to the caller's array: every heap, window, length -/
+theorem ellipsisB_heap (h : Bytes) (s : Slice) (n : Int) : (ellipsisB h s n).1 = h := by
+  unfold ellipsisB
   split
   · split
     · split <;> rfl
     · rfl
   · split <;> rfl
 
-/-
-  3. Full statement (FALSE for the pinned code, see the witnesses below):
-       theorem ellipsisB_heap (h s n) : (ellipsisB h s n).1 = h
-  It holds outside the truncating branch; `length = 3` keeps `str[0:0]`, whose `TrimSpace` is nil,
-  so `append` allocates.
--/
-theorem ellipsisB_heap_partial (h : Bytes) (s : Slice) (n : Int)
-    (hc : ¬ (((trimSpace (s.view h)).length : Int) > n ∧ 3 ≤ (trimSpace (s.view h)).length ∧ 3 < n)) :
-    (ellipsisB h s n).1 = h := by
-  by_cases hne : trimSpace (s.view h) = []
-  · simp only [ellipsisB, trimSpaceS_eq_nil h s hne]
-    split <;> rfl
-  · simp only [ellipsisB, trimSpaceS_eq_window h s hne]
-    split
-    · next hgt =>
-      split
-      · rfl
-      · next hn3 =>
-        have hn : n = 3 := by omega
-        subst hn
-        rw [trimSpaceS_eq_nil]
-        · rfl
-        · simp [Slice.view, Slice.prefix]
-          rfl
-    · rfl
+/-- the sub-window returned when nothing is cut lies inside the input window -/
+theorem ellipsisB_window_inside (h : Bytes) (s w : Slice) (n : Int) (hv : s.Valid h)
+    (hw : (ellipsisB h s n).2 = .window w) : w.Valid h ∧ s.off ≤ w.off ∧ w.off + w.len ≤ s.off + s.len := by
+  cases hts : trimSpaceS h s with
+  | fresh bs => exact absurd hts (trimSpaceS_ne_fresh h s bs)
+  | nil =>
+    simp only [ellipsisB, hts] at hw
+    split at hw <;> cases hw
+  | window t =>
+    obtain ⟨htv, hoff, hin, -, -, -, -⟩ := trimSpaceS_window h s t hv hts
+    simp only [ellipsisB, hts] at hw
+    split at hw
+    · split at hw <;> cases hw
+    · cases hw
+      exact ⟨htv, hoff, hin⟩
 
-/-- the truncating branch: the dots are written in place right after a sub-window `t'` of the
-    input window, and the result is `t'` extended over them -/
-theorem ellipsisB_truncating (h : Bytes) (s : Slice) (n : Int) (hv : s.Valid h)
-    (hc : ((trimSpace (s.view h)).length : Int) > n ∧ 3 ≤ (trimSpace (s.view h)).length ∧ 3 < n) :
-    ∃ t' : Slice, s.off ≤ t'.off ∧ t'.off + t'.len + 3 ≤ s.off + s.len ∧
-      t'.off + t'.len + 3 ≤ h.length ∧
-      ellipsisB h s n =
-        (writeAt h (t'.off + t'.len) dots, .window { t' with len := t'.len + 3 }) := by
-  obtain ⟨hgt, h3, hn3⟩ := hc
-  have hne : trimSpace (s.view h) ≠ [] := by
-    intro h0; rw [h0] at h3; simp at h3
-  obtain ⟨t, hts⟩ : ∃ t, trimSpaceS h s = .window t := ⟨_, trimSpaceS_eq_window h s hne⟩
-  obtain ⟨htv, ho, hol, hoc, hlen, -, hview⟩ := trimSpaceS_window h s t hv hts
-  have hgt' : (t.len : Int) > n := by omega
-  obtain ⟨hpv, -⟩ := prefix_facts h t n htv hgt'
-  have hk0 : 0 < (n - 3).toNat := by omega
-  have hk3 : (n - 3).toNat + 3 < t.len := by omega
-  generalize hkdef : (n - 3).toNat = k at *
-  have hne' : trimSpace ((t.prefix k).view h) ≠ [] := by
-    rw [Slice.view_prefix h t k (by omega), hview]
-    exact trimSpace_take_trimSpace_ne_nil _ k hk0 hne
-  obtain ⟨t', hts'⟩ : ∃ t', trimSpaceS h (t.prefix k) = .window t' :=
-    ⟨_, trimSpaceS_eq_window h (t.prefix k) hne'⟩
-  obtain ⟨htv', ho', hol', hoc', -, -, -⟩ := trimSpaceS_window h _ t' hpv hts'
-  simp only [Slice.prefix] at ho' hol' hoc'
-  obtain ⟨htv1, htv2⟩ := htv
-  obtain ⟨htv1', htv2'⟩ := htv'
-  have hsv := hv.1
-  refine ⟨t', by omega, by omega, by omega, ?_⟩
-  simp only [ellipsisB, hts]
-  rw [if_pos hgt', if_neg (by omega), hkdef, hts']
-  simp only [appendRef]
-  rw [if_pos (by simp only [dots, List.length_cons, List.length_nil]; omega)]
-  rfl
+-- non-vacuity
+/-- "  hello world  ", length 8: a fresh "hello...", the caller's array is as it was -/
+example : ellipsisB [32,32,104,101,108,108,111,32,119,111,114,108,100,32,32] ⟨0, 15, 15⟩ 8
+    = ([32,32,104,101,108,108,111,32,119,111,114,108,100,32,32], .fresh [104,101,108,108,111,46,46,46]) := by decide
 
-/-- 5. in the truncating branch the pinned helper always writes in place: the result is a window
-    inside the input window, the heap is the old one with `...` over the last three bytes of that
-    window, so it keeps its length and every byte outside the input window -/
-theorem ellipsisB_write_in_window (h : Bytes) (s : Slice) (n : Int) (hv : s.Valid h)
-    (hc : ((trimSpace (s.view h)).length : Int) > n ∧ 3 ≤ (trimSpace (s.view h)).length ∧ 3 < n) :
-    ∃ w : Slice, (ellipsisB h s n).2 = .window w ∧ s.off ≤ w.off ∧ w.off + w.len ≤ s.off + s.len ∧
-      3 ≤ w.len ∧ (ellipsisB h s n).1 = writeAt h (w.off + w.len - 3) dots ∧
-      (ellipsisB h s n).1.length = h.length ∧
-      (∀ i, i < s.off ∨ s.off + s.len ≤ i → (ellipsisB h s n).1[i]? = h[i]?) ∧
-      (∀ j, j < 3 → (ellipsisB h s n).1[w.off + w.len - 3 + j]? = some 46) := by
-  obtain ⟨t', ho, hol, hh, heq⟩ := ellipsisB_truncating h s n hv hc
-  rw [heq]
-  have hd : dots.length = 3 := rfl
-  refine ⟨{ t' with len := t'.len + 3 }, rfl, ho, by simp only; omega, by simp only; omega, ?_, ?_, ?_, ?_⟩
-  · simp only
-    rw [← Nat.add_assoc, Nat.add_sub_cancel]
-  · exact writeAt_length h _ dots (by omega)
-  · intro i hi
-    exact writeAt_getElem?_outside h _ dots (by omega) i (by omega)
-  · intro j hj
-    simp only
-    rw [← Nat.add_assoc, Nat.add_sub_cancel, writeAt_getElem?_inside h _ dots (by omega) j (by omega)]
-    have : j = 0 ∨ j = 1 ∨ j = 2 := by omega
-    rcases this with rfl | rfl | rfl <;> rfl
-
-/-! ### 4. witnesses of the deviation -/
-
-/-- `"  hello world  "`, length 8: the caller's array reads `"  hello...rld  "` afterwards -/
-theorem ellipsisB_writes_witness :
-    ellipsisB [32,32,104,101,108,108,111,32,119,111,114,108,100,32,32] ⟨0, 15, 15⟩ 8 =
-      ([32,32,104,101,108,108,111,46,46,46,114,108,100,32,32], .window ⟨2, 8, 13⟩) := by decide
-
-theorem ellipsisB_heap_ne_witness :
-    (ellipsisB [32,32,104,101,108,108,111,32,119,111,114,108,100,32,32] ⟨0, 15, 15⟩ 8).1 ≠
-      [32,32,104,101,108,108,111,32,119,111,114,108,100,32,32] := by decide
-
-/-- the repaired helper on the same input: same value, fresh array, heap untouched -/
-theorem ellipsisBFixed_witness :
-    ellipsisBFixed [32,32,104,101,108,108,111,32,119,111,114,108,100,32,32] ⟨0, 15, 15⟩ 8 =
-      ([32,32,104,101,108,108,111,32,119,111,114,108,100,32,32],
-       .fresh [104,101,108,108,111,46,46,46]) := by decide
-
-/-- `"abcdefghijklmnopqrst"`, length 10: the array reads `"abcdefg...klmnopqrst"` afterwards -/
-theorem ellipsisB_writes_witness₂ :
-    ellipsisB [97,98,99,100,101,102,103,104,105,106,107,108,109,110,111,112,113,114,115,116]
-        ⟨0, 20, 20⟩ 10 =
-      ([97,98,99,100,101,102,103,46,46,46,107,108,109,110,111,112,113,114,115,116],
-       .window ⟨0, 10, 20⟩) := by decide
-
-theorem ellipsisB_heap_ne_witness₂ :
-    (ellipsisB [97,98,99,100,101,102,103,104,105,106,107,108,109,110,111,112,113,114,115,116]
-        ⟨0, 20, 20⟩ 10).1 ≠
-      [97,98,99,100,101,102,103,104,105,106,107,108,109,110,111,112,113,114,115,116] := by decide
-
-/-! non-vacuity: the side conditions of items 3 and 5 on concrete inputs -/
-
-/-- `length = 3` keeps `str[0:0]`: `append` on nil allocates, no write although the text is cut -/
-example : ellipsisB [32,97,98,99,100,32] ⟨0, 6, 6⟩ 3 = ([32,97,98,99,100,32], .fresh dots) := by
-  decide
-
-example : ¬ (((trimSpace (Slice.view [32,97,98,99,100,32] ⟨0, 6, 6⟩)).length : Int) > 3 ∧
-    3 ≤ (trimSpace (Slice.view [32,97,98,99,100,32] ⟨0, 6, 6⟩)).length ∧ (3 : Int) < 3) := by decide
+/-- `length = 3` keeps `str[0:0]`: only the dots -/
+example : ellipsisB [32,97,98,99,100,32] ⟨0, 6, 6⟩ 3 = ([32,97,98,99,100,32], .fresh dots) := by decide
 
 /-- not longer than `length`: the trimmed sub-window itself is returned -/
-example : ellipsisB [32,97,98,99,100,32] ⟨0, 6, 6⟩ 4 = ([32,97,98,99,100,32], .window ⟨1, 4, 5⟩) := by
-  decide
-
-/-- the first witness is in the truncating branch and its input window is valid -/
-example : Slice.Valid [32,32,104,101,108,108,111,32,119,111,114,108,100,32,32] ⟨0, 15, 15⟩ ∧
-    ((trimSpace (Slice.view [32,32,104,101,108,108,111,32,119,111,114,108,100,32,32]
-      ⟨0, 15, 15⟩)).length : Int) > 8 ∧
-    3 ≤ (trimSpace (Slice.view [32,32,104,101,108,108,111,32,119,111,114,108,100,32,32]
-      ⟨0, 15, 15⟩)).length ∧ (3 : Int) < 8 := by
-  refine ⟨⟨by decide, by decide⟩, by decide, by decide, by decide⟩
+example : ellipsisB [32,97,98,99,100,32] ⟨0, 6, 6⟩ 4 = ([32,97,98,99,100,32], .window ⟨1, 4, 5⟩) := by decide
 
 /-- both flavours on a text with a multi-byte space rune (U+00A0) at each end and inside -/
 example : ellipsis [0xC2,0xA0,97,98,0xC2,0xA0,99,100,101,102,0xC2,0xA0] 7 = [97,98,46,46,46] ∧
     (ellipsisB [0xC2,0xA0,97,98,0xC2,0xA0,99,100,101,102,0xC2,0xA0] ⟨0, 12, 12⟩ 7) =
-      ([0xC2,0xA0,97,98,46,46,46,100,101,102,0xC2,0xA0], .window ⟨2, 5, 10⟩) := by decide
-
+      ([0xC2,0xA0,97,98,0xC2,0xA0,99,100,101,102,0xC2,0xA0], .fresh [97,98,46,46,46]) := by decide
 
 end Ro.Plugins.Text
